@@ -88,6 +88,24 @@ def const_size_copy(f, t):
     return False
 
 
+def clamp_after_sum(f, size_op, const_pat=r"MAX_CONTRACT_STATE$"):
+    """the size is min(SUM, LIMIT): a `min` with the limit constant whose other argument already contains the addition
+    offset + length (clamping one summand leaves the end position unbounded)"""
+    for a in f.origins(size_op, deep=True):
+        if a[0] == "call" and len(a) > 2 and re.search(r"cmp::min$|Ord::min$", a[1]):
+            t = f.term(a[2])
+            args = t["args"]
+            for i, x in enumerate(args):
+                ox = f.origins(x, deep=True)
+                if any(y[0] == "const" and re.search(const_pat, y[1]) for y in ox):
+                    for j, z in enumerate(args):
+                        if j != i:
+                            oz = f.origins(z, deep=True)
+                            if has_call_origin(oz, r"::checked_add$") or any(y[0] == "bin" and y[1].startswith("Add") for y in oz):
+                                return True
+    return False
+
+
 def memory_params(f, path):
     """the linear-memory parameter: called `memory`, or - whatever its name - the first `&mut [u8]` / `&mut Vec<u8>` parameter
     of a host function (other byte slices handed to host functions are shared references)"""
@@ -398,6 +416,7 @@ def run(ck):
             o = f.origins(t["args"][1], deep=True)
             ck.ob("CMP", f.path, "resize-min-MAX_CONTRACT_STATE", has_call_origin(o, r"cmp::min$") and any(a[0] == "const" and a[1].endswith("MAX_CONTRACT_STATE") for a in o),
                   "the new length is min(.., MAX_CONTRACT_STATE)", f.loc(bi))
+            ck.ob("CMP", f.path, "limit-clamps-the-end-position", clamp_after_sum(f, t["args"][1]), "min(offset + length, MAX_CONTRACT_STATE): the clamp is applied to the end position, not to a summand", f.loc(bi))
         cmp_rejecting(ck, f, [("arg", 2)], [("call", r"State>::len$")], "Gt", "offset>len-rejected")
     # who may write State.state
     writers = set()
@@ -483,6 +502,10 @@ def run(ck):
         for (bi, t) in f.calls(r"Vec::<T, A>::resize$"):
             o = f.origins(t["args"][1], deep=True)
             ck.ob("CMP", f.path, "resize-min-MAX_CONTRACT_STATE", has_call_origin(o, r"cmp::min$") and any(a[0] == "const" and a[1].endswith("MAX_CONTRACT_STATE") for a in o), "with the limit flag, the new length is min(end, MAX_CONTRACT_STATE)", f.loc(bi))
+            ok2 = clamp_after_sum(f, t["args"][1])
+            ck.ob("CMP", f.path, "limit-clamps-the-end-position", ok2,
+                  "min(offset + length, MAX_CONTRACT_STATE): the clamp is applied to the end position" if ok2 else
+                  "the 16 KiB limit is applied to a summand (the length of one write), not to offset + length: appended writes grow the return value without bound", f.loc(bi))
             tk = f.calls(TICK)
             ck.ob("DOM", f.path, "growth-charged", any(f.dominates(tb, bi) for (tb, _) in tk), "growing the return value is preceded by a charge", f.loc(bi))
         cmp_rejecting(ck, f, [("arg", 3)], [("arg", 1), ("call", r"::len$")], "Gt", "offset>len-rejected")
